@@ -47,7 +47,8 @@ KONS = {
 }
 DECL = {"DB": "Base", "DS": "Sub", "DH": "Hand", "DU": "USub", "DD": "Dflt", "D0": "Hand0",
         "DBc": "Base", "DSk": "Sub",     # DBc: with a condition (v.k >= 1); DSk: predicate form with a field constraint
-        "DHt": "Hand"}                   # DHt: the(entity(let(Hand))): NoSolutionFound / the instance / MultipleSolutionFound
+        "DHt": "Hand",                   # DHt: the(entity(let(Hand))): NoSolutionFound / the instance / MultipleSolutionFound
+        "DRh": "Hand"}                   # DRh: a rule whose HEAD (only) mentions a no-domain variable: Made(a=x, b=let(Hand))
 SYMB = ("YB", "YH", "YS")
 MAX_Q = 2
 
@@ -173,6 +174,7 @@ def run_case(hist, inst):
         flags = set()
         evaluated = set()
         constructed_since_decl = {}
+        rule_heads = set()
         with symbolic_mode():
             the_probe = the(entity(let(W.Item, src)))
         for i, op in enumerate(hist):
@@ -229,6 +231,12 @@ def run_case(hist, inst):
                         v = let(cls)
                         with symbolic_mode():
                             q = the(entity(v))
+                    elif op == "DRh":
+                        v = let(cls)
+                        xs = let(W.Item, src)
+                        with rule_mode():
+                            q = infer(entity(W.Made(a=xs, b=v), xs.p >= 1))
+                        rule_heads.add(id(q))
                     elif op in ("DB", "DH", "DD", "D0"):
                         v = let(cls)
                         with symbolic_mode():
@@ -246,6 +254,20 @@ def run_case(hist, inst):
                     if constructed_since_decl.get(qi):
                         flags.add("constructed-between-declaration-and-evaluation" if qi not in evaluated
                                   else "constructed-after-first-evaluation")
+                    if id(q) in rule_heads:
+                        # one Made(a=x, b=h) per Item x of the two-object domain and live Hand h
+                        try:
+                            made = list(q.evaluate())
+                        except Exception as e:
+                            return ("evaluate-raised", i, op, exc_obs(e), "a list"), trans, flags
+                        gotp = sorted((getattr(m.a, "tag", "?"), getattr(m.b, "tag", "?")) for m in made)
+                        expp = sorted((x.tag, h.tag) for x in src for h in log if isinstance(h, cls))
+                        evaluated.add(qi)
+                        if gotp != expp:
+                            kind = "missing" if set(expp) - set(gotp) else ("extra" if set(gotp) - set(expp) else "duplicate")
+                            when = "reevaluation" if hist[:i].count(op) > 0 else "first-evaluation"
+                            return (f"rule-head-{kind}:{when}", i, op, gotp, expp), trans, flags
+                        continue
                     try:
                         if isinstance(q, type(the_probe)):
                             # `the`: the outcome class is decided by the number of live instances
